@@ -481,14 +481,35 @@ func renumberContiguous(sql string) (string, int) {
 func corruptStmt(r *Rng, s QSchema, q QStmt, schema string) (QStmt, string) {
 	t := &s.Tables[r.Intn(3)]
 	c := t.Cols[1+r.Intn(len(t.Cols)-1)]
-	cname := strings.Trim(c.Name, "\"`")
-	switch r.Intn(6) {
+	k := r.Intn(10)
+	switch {
+	case k < 3:
+		k = 0
+	case k < 6:
+		k = 1
+	default:
+		k = k - 4 // 2..5
+	}
+	switch k {
 	case 0:
-		q.SQL = strings.Replace(q.SQL, t.Name, "nowhere", 1)
-		q.Tags = append(q.Tags, "corrupt:table-renamed")
+		// rename ONE occurrence of a relation the statement uses — the outermost or a nested one
+		var names []string
+		for _, tb := range s.Tables {
+			names = append(names, tb.Name)
+		}
+		if sql, ok := replaceOneWord(r, q.SQL, names, "nowhere"); ok {
+			q.SQL = sql
+			q.Tags = append(q.Tags, "corrupt:table-renamed")
+		}
 	case 1:
-		if strings.Contains(q.SQL, cname) {
-			q.SQL = strings.Replace(q.SQL, cname, "nope", 1)
+		var names []string
+		for _, tb := range s.Tables[:3] {
+			for _, c := range tb.Cols[1:] {
+				names = append(names, strings.Trim(c.Name, "\"`"))
+			}
+		}
+		if sql, ok := replaceOneWord(r, q.SQL, names, "nope"); ok {
+			q.SQL = sql
 			q.Tags = append(q.Tags, "corrupt:column-renamed")
 		}
 	case 2:
@@ -1265,4 +1286,26 @@ func genWideStmt(r *Rng, s QSchema, idx int) (QStmt, string) {
 	q.Tags = []string{"wide:" + tag}
 	q.Known = known
 	return q, ""
+}
+
+// replaceOneWord replaces one randomly chosen whole-word occurrence of any of the names
+func replaceOneWord(r *Rng, sql string, names []string, with string) (string, bool) {
+	type occ struct{ at, n int }
+	var occs []occ
+	isWord := func(b byte) bool { return b == '_' || b >= '0' && b <= '9' || b >= 'a' && b <= 'z' || b >= 'A' && b <= 'Z' }
+	for _, nm := range names {
+		if nm == "" {
+			continue
+		}
+		for i := 0; i+len(nm) <= len(sql); i++ {
+			if sql[i:i+len(nm)] == nm && (i == 0 || !isWord(sql[i-1])) && (i+len(nm) == len(sql) || !isWord(sql[i+len(nm)])) {
+				occs = append(occs, occ{i, len(nm)})
+			}
+		}
+	}
+	if len(occs) == 0 {
+		return sql, false
+	}
+	o := occs[r.Intn(len(occs))]
+	return sql[:o.at] + with + sql[o.at+o.n:], true
 }
